@@ -116,7 +116,7 @@ def main():
             pass
     meta["verif_head"] = sh(f"git -C {V} log --format=%h -1")[1].strip()
     for f in ("patch.diff", "demo.py", "demo.sh", "notes.md"):
-        if os.path.exists(os.path.join(src, f)):
+        if os.path.exists(os.path.join(src, f)) and os.path.realpath(src) != os.path.realpath(dst):
             shutil.copy(os.path.join(src, f), dst)
     json.dump(meta, open(os.path.join(dst, "meta.json"), "w"), indent=1)
     print(json.dumps({k: meta[k] for k in ("name", "valid", "detected", "demo_clean_rc", "demo_patched_rc", "tests_ok", "checks") if k in meta}, indent=1)[:1500])
